@@ -763,6 +763,7 @@ int main(int argc, char *argv[])
       else if (numberof.depth == HWLOC_TYPE_DEPTH_UNKNOWN)
         fprintf(stderr, "cannot use --number-of type %s, unavailable\n",
                 numberof_string);
+      ret = EXIT_FAILURE;
       goto out;
     }
   }
@@ -780,6 +781,7 @@ int main(int argc, char *argv[])
       else if (intersect.depth == HWLOC_TYPE_DEPTH_UNKNOWN)
         fprintf(stderr, "cannot use --intersect type %s, unavailable\n",
                 intersect_string);
+      ret = EXIT_FAILURE;
       goto out;
     }
   }
@@ -810,10 +812,12 @@ int main(int argc, char *argv[])
         else if (hierlevels[i].depth == HWLOC_TYPE_DEPTH_UNKNOWN)
           fprintf(stderr, "cannot use --hierarchical type %s, unavailable\n",
                   tmp);
+	ret = EXIT_FAILURE;
 	goto out;
       }
       if (hierlevels[i].depth < 0 && hierlevels[i].depth != HWLOC_TYPE_DEPTH_NUMANODE) {
 	fprintf(stderr, "unsupported (non-normal) --hierarchical type %s\n", tmp);
+	ret = EXIT_FAILURE;
 	goto out;
       }
       tmp = next+1;
